@@ -533,6 +533,11 @@ def triples(seed, count, maxcells=3, minors=(5, 4, 2), max_edits=2, ops=None):
             if t is not None:
                 yield t
                 continue
+        if ops is None and u < 0.87:
+            t = numeric_key_triple(b, rnd)
+            if t is not None:
+                yield t
+                continue
         common = b
         if rnd.random() < 0.3:
             # changes made identically on both sides (agreement), e.g. the same cell inserted by both
@@ -614,6 +619,22 @@ def concurrent_tags_triple(b, rnd):
         lt, rt = rt, lt
     l['cells'][i]['metadata']['tags'] = lt
     r['cells'][i]['metadata']['tags'] = rt
+    return base, l, r
+
+
+def numeric_key_triple(b, rnd):
+    "a metadata table keyed by numbers (\"1\", \"2\", \"10\"): the two sides change entries nested below different keys"
+    if not b['cells']:
+        return None
+    i = rnd.randrange(len(b['cells']))
+    base = copy.deepcopy(b)
+    base['cells'][i]['metadata']['rubric'] = nbformat.from_dict({k: {'title': 'question ' + k, 'points': 1} for k in ('1', '2', '10')})
+    l, r = copy.deepcopy(base), copy.deepcopy(base)
+    l['cells'][i]['metadata']['rubric']['1']['points'] = 3
+    l['cells'][i]['metadata']['rubric']['1']['comment'] = 'harder than it looks'
+    r['cells'][i]['metadata']['rubric'][rnd.choice(['2', '10'])]['title'] = 'reworded'
+    if rnd.random() < 0.5:
+        l, r = r, l
     return base, l, r
 
 
